@@ -698,8 +698,15 @@ func reifyPrimitive(
 ) (reflect.Value, Error) {
 	// zero initialize value if val==nil
 	if isNil(val) {
-		v := pointerize(t, baseType, reflect.Zero(baseType))
-		return tryInitDefaults(v), nil
+		v := tryInitDefaults(pointerize(t, baseType, reflect.Zero(baseType)))
+		if baseType.Kind() == reflect.Array {
+			// the elements of the zero array are part of the result: validate
+			// them like the elements reifyDoArray leaves as they are
+			if err := tryRecursiveValidate(v, opts.opts, nil); err != nil {
+				return reflect.Value{}, raiseValidation(val.Context(), val.meta(), "", err)
+			}
+		}
+		return v, nil
 	}
 
 	var v reflect.Value
